@@ -489,6 +489,97 @@ def w7_ba(run: Run, prog: Program):
                 f"documented are created")
 
 
+def _dnf(e):
+    """Disjunctive normal form of a boolean IR expression: [[atom, ...], ...]"""
+    if e.k == "boolop" and e.a[0] == "or":
+        out = []
+        for x in e.a[1]:
+            out += _dnf(x)
+        return out
+    if e.k == "boolop" and e.a[0] == "and":
+        acc = [[]]
+        for x in e.a[1]:
+            acc = [a + b for a in acc for b in _dnf(x)]
+        return acc
+    return [[e]]
+
+
+def w9(run: Run, cy: CyProgram):
+    """The acceptance conditions of the geographical rewiring imply what they
+    promise.  A swap replaces the links (s,t), (k,l) by (s,l), (t,k).  Reading
+    `x == y` and `abs(x - y) < eps` as "x and y are interchangeable", every
+    disjunct of a condition must make the multiset of the new links' attributes
+    equal to that of the old links: link lengths D[.,.] (D symmetric) for the
+    length conditions, unordered end-point degree pairs for the degree-degree
+    correlation condition.  Decided by union-find over the atoms: exact, finite."""
+    mod = cy.modules[CORE]
+    core = mod.funcs.get("_randomly_rewire_geomodel")
+    if core is None:
+        raise AnalysisError("_randomly_rewire_geomodel vanished")
+    n = 0
+    for f in sorted(mod.funcs.values(), key=lambda f: f.name):
+        if not f.name.startswith(("cond_len", "cond_deg")):
+            continue
+        rets = [x for x in walk(f.body) if isinstance(x, X) and x.k == "return"
+                and x.a[0] is not None]
+        if len(rets) != 1 or len(f.args) < 5:
+            raise AnalysisError(f"{f.where}: condition {f.name} has no single return")
+        s_, t_, k_, l_ = [a for a, _ in f.args][-4:]
+        arr = f.args[0][0]
+        kind = "deg" if f.name.startswith("cond_deg") else "len"
+        removed = [(s_, t_), (k_, l_)]
+        added = [(s_, l_), (t_, k_)]
+
+        def term(x):
+            if x.k == "index" and pp(x.a[0]) == arr:
+                idx = [pp(i) for i in x.a[1]]
+                return ("D", frozenset(idx)) if len(idx) == 2 else ("deg", idx[0])
+            return None
+        for di, conj in enumerate(_dnf(rets[0].a[0])):
+            n += 1
+            parent = {}
+
+            def find(a):
+                parent.setdefault(a, a)
+                while parent[a] != a:
+                    parent[a] = parent[parent[a]]
+                    a = parent[a]
+                return a
+            bad_atom = None
+            for at in conj:
+                a = b = None
+                if at.k == "cmp" and at.a[0] == "==":
+                    a, b = term(at.a[1]), term(at.a[2])
+                elif at.k == "cmp" and at.a[0] in ("<", "<=") and at.a[1].k == "call" and \
+                        pp(at.a[1].a[0]) in ("abs", "fabs") and \
+                        at.a[1].a[1][0].k == "bin" and at.a[1].a[1][0].a[0] == "-":
+                    d = at.a[1].a[1][0]
+                    a, b = term(d.a[1]), term(d.a[2])
+                if a is None or b is None:
+                    bad_atom = pp(at)
+                    continue
+                parent[find(a)] = find(b)
+            if kind == "len":
+                old = sorted(repr(find(("D", frozenset(e)))) for e in removed)
+                new = sorted(repr(find(("D", frozenset(e)))) for e in added)
+            else:
+                old = sorted(repr(sorted(repr(find(("deg", v))) for v in e)) for e in removed)
+                new = sorted(repr(sorted(repr(find(("deg", v))) for v in e)) for e in added)
+            ok = old == new
+            run.oblige("W9", f"{f.name}:disjunct{di}", ok, sample={
+                "where": f.where, "atoms": [pp(a) for a in conj],
+                "unreadable_atom": bad_atom})
+            if not ok:
+                what = ("link lengths" if kind == "len" else "end-point degree pairs")
+                run.add("W9", f"{f.name}/disjunct{di}", f.where,
+                        f"{f.name}: the alternative {[pp(a) for a in conj]} accepts a "
+                        f"swap of ({s_},{t_}),({k_},{l_}) into ({s_},{l_}),({t_},{k_}) "
+                        f"although it does not make the {what} of the new links equal "
+                        f"to those of the old links: the model's conserved quantity "
+                        f"changes")
+    run.floor("W9 condition alternatives", n, 4)
+
+
 def w8(run: Run, prog: Program):
     """A rebuild of an existing network from an edge list keeps its size: outside
     the constructor, `self.set_edge_list(edges)` must pass the node count,
@@ -526,6 +617,8 @@ def w8(run: Run, prog: Program):
 
 
 def check(run: Run, prog: Program, cy: CyProgram, sites):
+    run.rule("W9", "every alternative of a rewiring acceptance condition implies that "
+             "the new links carry the old links' lengths / degree pairs")
     run.rule("W8", "rebuilding an existing network from an edge list passes the node "
              "count (isolated nodes survive rewiring)")
     run.rule("W1", "a rewiring swap removes and adds the same end-point multiset, "
@@ -549,6 +642,7 @@ def check(run: Run, prog: Program, cy: CyProgram, sites):
     w3(run, cy)
     w4(run, prog)
     w8(run, prog)
+    w9(run, cy)
     n = report_sites(run, "W4", sites, lambda s: s.kernel.name.startswith(
         ("_randomly_rewire_geomodel", "_randomlySetCrossLinks",
          "_randomlyRewireCrossLinks")))
